@@ -74,6 +74,12 @@ class Check:
         cov["known_findings_not_reproduced"] = sorted(k for k in self.known if k not in self.known_hit)
         if self.notes:
             cov["notes"] = self.notes
+        if self.level == "translation_validation":
+            # disagreements between the recorded behaviour and the specification that were examined one by
+            # one (re-run alone, classified as violation or listed finding)
+            cov.setdefault("disagreements_checked", len(self.violations) + len(self.known_hit))
+            if "programs" not in cov and "evaluations" in cov:
+                cov["programs"] = cov["evaluations"]
         ev = {
             "property_id": self.pid, "tier": self.tier, "seed": self.seed, "level": self.level,
             "coverage": cov, "assumptions": self.assumptions,
